@@ -13,6 +13,16 @@ Theorem C09_roundtrip : forall cmd args e,
   eval_call e (cmd :: args) = Call None None cmd args.
 Proof. exact roundtrip. Qed.
 
+(* the same for the purely syntactic classes (no CR/LF; no leading quote, no quote with a space; no #
+   without a space; no "${" or "%{"; no back-slash directly before $ or %; no % with a space), which
+   contain the scanner-defined classes D, B, P *)
+Theorem C09_safe_simple : forall a, safe_simple a = true -> safe a = true.
+Proof. exact safe_simple_safe. Qed.
+Theorem C09_roundtrip_simple : forall cmd args e,
+  is_cmd cmd = true -> forallb safe_simple args = true -> head_ok args = true -> last_ok args = true ->
+  eval_call e (cmd :: args) = Call None None cmd args.
+Proof. exact roundtrip_simple. Qed.
+
 (* the second binding alone: a safe value is data, whatever the variables hold *)
 Theorem C09_rebind : forall a e, safe a = true -> bound_of (expand_by_wrapper a e) = [a].
 Proof. exact rebind_safe. Qed.
